@@ -225,7 +225,9 @@ func (v SolutionVehicle) bestMovePlanSingleStop(
 			move,
 		)
 		mc.value = value
-		if mc.value < bestMoveContainer.value {
+		// the first candidate is always taken: an estimate that is not a
+		// finite number must not leave the best container without a position
+		if len(moves) == 0 || mc.value < bestMoveContainer.value {
 			bestMoveContainer = mc
 		} else if mc.value == bestMoveContainer.value {
 			if rand.Float64() < 0.5 {
